@@ -9,7 +9,7 @@ V=$(pwd)
 . "$V/env.sh"
 B="$V/.build"
 REPO="${VERIF_REPO:-/repo}"
-if [ ! -f "$B/geth/.stamp" ] || [ ! -f "$B/rtoverlay/overlay.json" ] || [ ! -x "$B/instr" ] || [ "$V/rtoverlay/mkoverlay.py" -nt "$B/rtoverlay/overlay.json" ]; then "$V/setup.sh" >&2; fi
+if [ ! -f "$B/geth/.stamp" ] || [ ! -f "$B/rtoverlay/overlay.json" ] || [ ! -x "$B/instr" ] || [ "$V/rtoverlay/mkoverlay.py" -nt "$B/rtoverlay/overlay.json" ] || [ "$V/instr/main.go" -nt "$B/instr" ]; then "$V/setup.sh" >&2; fi
 OUT="$(realpath -m "${1:-$B/sim.test}")"
 TAGS="verif${2:+,$2}"
 KEY=$(echo -n "$REPO" | md5sum | cut -c1-10)
@@ -22,11 +22,35 @@ SRC="${VERIF_SIMSRC:-$V/sim}" # a frozen copy of the simulator sources (seedswee
   mkdir -p "$ID"
   "$B/instr" "$REPO/storage/pebble/storage.go" "$ID/storage.go.new" 2>/dev/null || { echo "build: instrumenting storage.go failed" >&2; exit 2; }
   if ! cmp -s "$ID/storage.go.new" "$ID/storage.go"; then mv "$ID/storage.go.new" "$ID/storage.go"; else rm -f "$ID/storage.go.new"; fi
+  # the same for the routing table (portalwire/table.go, table_reval.go): the hook is declared by a file
+  # that only the overlay adds to the package
+  for f in table table_reval; do
+    "$B/instr" -recv Table,tableRevalidation -hook VerifYieldTable "$REPO/portalwire/$f.go" "$ID/$f.go.new" 2>/dev/null || { echo "build: instrumenting $f.go failed" >&2; exit 2; }
+    if ! cmp -s "$ID/$f.go.new" "$ID/$f.go"; then mv "$ID/$f.go.new" "$ID/$f.go"; else rm -f "$ID/$f.go.new"; fi
+  done
+  cat > "$ID/zz_verif_yield.go.new" <<'GO'
+package portalwire
+
+// Added by the verification build overlay only (not part of the repository).
+
+// VerifTableYieldHook is called at every yield point of the instrumented routing table.
+var VerifTableYieldHook func(site string)
+
+func VerifYieldTable(site string) {
+	if h := VerifTableYieldHook; h != nil {
+		h(site)
+	}
+}
+GO
+  if ! cmp -s "$ID/zz_verif_yield.go.new" "$ID/zz_verif_yield.go"; then mv "$ID/zz_verif_yield.go.new" "$ID/zz_verif_yield.go"; else rm -f "$ID/zz_verif_yield.go.new"; fi
   python3 - "$B" "$REPO" "$ID" <<'PY'
 import json,sys
 B,REPO,ID=sys.argv[1:4]
 o=json.load(open(B+"/rtoverlay/overlay.json"))
 o["Replace"][REPO+"/storage/pebble/storage.go"]=ID+"/storage.go"
+o["Replace"][REPO+"/portalwire/table.go"]=ID+"/table.go"
+o["Replace"][REPO+"/portalwire/table_reval.go"]=ID+"/table_reval.go"
+o["Replace"][REPO+"/portalwire/zz_verif_yield.go"]=ID+"/zz_verif_yield.go"
 new=json.dumps(o,indent=1,sort_keys=True)
 try: old=open(ID+"/overlay.json").read()
 except Exception: old=""
